@@ -350,7 +350,7 @@ Section Apx.
         destruct es; [contradiction|discriminate].
       - destruct (Nat.ltb (length es) min_edges_to_enqueue) eqn:E1; [|apply enqueue_spec; assumption].
         split; [|split].
-        + apply pedges_Inv; [|exact Iv]. intros e He. eapply (proj1 Cok); eauto.
+        + apply pedges_Inv; [|exact Iv]. intros e He. eapply (centry_ok_edges x); eauto.
         + apply pedges_ext.
         + intros c Hc [[_ R]|[R _]] e He; [|congruence].
           rewrite Es in R. injection R as R. left. destruct Iv as (_ & T & _).
@@ -404,7 +404,7 @@ Section Apx.
           - apply X. }
         destruct (q_cell en) as [es|] eqn:Ec.
         + apply Gen.
-          * apply pedges_Inv; [|exact Iv1]. intros e He. eapply (proj1 Cen); [cbn; reflexivity|exact He].
+          * apply pedges_Inv; [|exact Iv1]. intros e He. eapply (centry_ok_edges x); [exact Cen|cbn; reflexivity|exact He].
           * apply pedges_ext.
           * intros c Hc [[_ R]|[R _]] e He; cbn in R; [|congruence].
             rewrite Ec in R. injection R as R. left.
